@@ -223,7 +223,7 @@ func TestGen(t *testing.T) {
 		"filter: real parseResources + filterAuthorizedResources with a data-driven fake controller (Authorize outcome chosen per cluster/namespace/SA); non-trivial = >=1 resource denied and >=1 allowed. " +
 		"scen: histories of 2-7 ops (Generate by 2-4 differently privileged proxies over a common pool of names, ClearAll, Clear(keys)) on one SecretGen with the real XdsCache, " +
 		"each Generate repeated on a brand-new SecretGen (order-independence oracle); observable per response item: name, private key present, which stored object it came from; plus the key set of the real cache after every op; non-trivial = some response carries a private key and some proxy is denied a name another one received. " +
-		"kauth: the real kube CredentialsController.Authorize on a fake client whose SubjectAccessReview reactor answers from a grant table that changes between calls; non-trivial = a (namespace, SA) is asked again after an RBAC change (cache path)."
+		"kauth: the real kube CredentialsController.Authorize on a fake client whose SubjectAccessReview reactor answers from a grant table that changes between calls; non-trivial = a (namespace, SA) is asked again after an RBAC change (cache path) or the history starts with an allowed identity followed by a denied one whose \"<ns>-<sa>\" concatenation is the same."
 	seed := vlib.Seed()
 	root := vlib.NewRand(seed*0x9e37 + 11)
 	id := 0
@@ -785,7 +785,7 @@ func TestGen(t *testing.T) {
 		}
 		c.Add(vlib.Case{ID: id, Term: vlib.App("KAuth", vlib.NI(id), grantsTerm(initial), vlib.List(opTerms), vlib.ListOf(obs, vlib.B)), Tags: tags,
 			Sample:  map[string]any{"kind": "kauth", "grants": initial, "ops": opTerms, "observed": obs, "reviews": b.reviews},
-			Trivial: !repeatAfterChange})
+			Trivial: !(repeatAfterChange || startedDirected)})
 	}
 
 	if err := c.Flush(); err != nil {
